@@ -652,7 +652,7 @@ func (rm RoundingMode) round(shift, neg bool, sig uint128, exp int16, trunc int8
 				}
 			}
 		case ToNearestAway:
-			if digit >= 5 {
+			if digit > 5 || (digit == 5 && trunc != -1) {
 				adjust = 1
 			}
 		case ToZero:
